@@ -95,8 +95,12 @@ class SimRaw(io.RawIOBase):
         if not self._alive():
             return 0
         size = self._pos if size is None else size
-        self.fs.io_call("truncate", self.path)
-        del self.fs.files[self.path][size:]
+        self.fs.io_call("truncate", self.path, True)
+        data = self.fs.files[self.path]
+        if size < len(data):
+            del data[size:]
+        else:
+            data += bytes(size - len(data))  # ftruncate() extends with zero bytes
         return size
 
     def close(self):
